@@ -295,4 +295,13 @@ T6_RoundTripIdentity ==
 T7_DrainSorted ==
     Hist => \A i \in 1..Len(rets) :
                 rets[i].hi = nextId - 1 => \A j \in i..Len(rets) : KeyLeq(rets[i].ev, rets[j].ev)
+
+\* The same in the words of the property, with the order written out independently of Prec/KeyLeq:
+\* timestamps never decrease; at equal timestamps unplug comes before plug-in before recompute.
+Rank(k) == CASE k = "Unplug" -> 1 [] k = "Plugin" -> 2 [] k = "Recompute" -> 3
+T8_TimeThenUnplugPluginRecompute ==
+    Hist => \A i, j \in 1..Len(rets) :
+                (i < j /\ rets[j].ev.id <= rets[i].hi) =>
+                    /\ rets[i].ev.ts <= rets[j].ev.ts
+                    /\ rets[i].ev.ts = rets[j].ev.ts => Rank(rets[i].ev.kind) <= Rank(rets[j].ev.kind)
 =============================================================================
